@@ -148,6 +148,7 @@ class State:
         self.pc = []
         self.panic_msg = None
         self.last_ret = None
+        self.divs = []  # (A, B, q, r, kind) records of divisions by a symbolic divisor on this path
 
     def clone(self):
         s = State()
@@ -155,6 +156,7 @@ class State:
         s.pc = list(self.pc)
         s.panic_msg = self.panic_msg
         s.last_ret = self.last_ret
+        s.divs = list(self.divs)
         return s
 
     def frame(self, uid):
@@ -276,6 +278,7 @@ class Engine:
         self.static_vals = {}
         self.var_range = {}
         self.pending_lemmas = []
+        self.div_cache = {}
         self.exclusions = []  # (fn-name suffix, predicate(eng, st, args) -> cond, finding id)
         self._bcache = {}
         self._bkeep = []
@@ -427,9 +430,15 @@ class Engine:
             q = qa if b > 0 else -qa
             return zsimp(q), zsimp(Z(a) - q * b)
         # symbolic divisor: fresh quotient / remainder tied by the division lemma
+        A, B = Z(a), Z(b)
+        ck = ("t", A.get_id(), B.get_id())
+        if ck in self.div_cache:
+            _A, _B, q, r, lemma = self.div_cache[ck]
+            if not any(l.get_id() == lemma.get_id() for l in st.pc[-200:]):
+                st.pc.append(lemma); self.solver.add(lemma)
+            return q, r
         q = z3.Int(f"q!{next(self.fresh)}")
         r = z3.Int(f"r!{next(self.fresh)}")
-        A, B = Z(a), Z(b)
         absb = z3.If(B >= 0, B, -B)
         absa = z3.If(A >= 0, A, -A)
         absq = z3.If(q >= 0, q, -q)
@@ -438,9 +447,23 @@ class Engine:
                        # valid facts about truncating division (needed when `*` is uninterpreted)
                        absq <= absa, z3.Or(q == 0, (q > 0) == ((A > 0) == (B > 0))),
                        z3.Implies(absa < absb, q == 0), z3.Implies(B == 1, q == A), z3.Implies(B == -1, q == -A)))
+        self._div_ranges(A, B, q, r, euclid=False)
+        st.divs.append((A, B, q, r, "trunc"))
+        self.div_cache[ck] = (A, B, q, r, lemma)
         st.pc.append(lemma)
         self.solver.add(lemma)
         return q, r
+
+    def _div_ranges(self, A, B, q, r, euclid):
+        """intervals for the fresh quotient / remainder (only used to drop redundant wrap terms):
+        valid on paths where B != 0, which is the only place the values are used"""
+        ba, bb = self.bounds(A), self.bounds(B)
+        if None not in ba:
+            m = max(abs(ba[0]), abs(ba[1]))
+            self.var_range[str(q)] = (-m - 1, m + 1)
+        if None not in bb:
+            m = max(abs(bb[0]), abs(bb[1]))
+            self.var_range[str(r)] = (0, max(m - 1, 0)) if euclid else (-max(m - 1, 0), max(m - 1, 0))
 
     def ediv(self, st, a, b):
         """Euclidean division and remainder (div_euclid / rem_euclid); b != 0."""
@@ -450,11 +473,20 @@ class Engine:
         if is_conc(b):
             A = Z(a)
             return zsimp(A / b), zsimp(A % b)
+        A, B = Z(a), Z(b)
+        ck = ("e", A.get_id(), B.get_id())
+        if ck in self.div_cache:
+            _A, _B, q, r, lemma = self.div_cache[ck]
+            if not any(l.get_id() == lemma.get_id() for l in st.pc[-200:]):
+                st.pc.append(lemma); self.solver.add(lemma)
+            return q, r
         q = z3.Int(f"qe!{next(self.fresh)}")
         r = z3.Int(f"re!{next(self.fresh)}")
-        A, B = Z(a), Z(b)
         absb = z3.If(B >= 0, B, -B)
         lemma = z3.Implies(B != 0, z3.And(A == self.mul(q, B) + r, r >= 0, r < absb))
+        self._div_ranges(A, B, q, r, euclid=True)
+        st.divs.append((A, B, q, r, "euclid"))
+        self.div_cache[ck] = (A, B, q, r, lemma)
         st.pc.append(lemma)
         self.solver.add(lemma)
         return q, r
